@@ -449,7 +449,7 @@ func runRapidCampaign(s *session, c *campaign, harness, prop, harnessProp string
 			c.lines = append(c.lines, "  "+msg)
 		} else if r.err != nil {
 			c.infra++
-			c.lines = append(c.lines, fmt.Sprintf("INFRA shard %d failed without a saved case: %v\n%s", r.idx, r.err, tail(r.out, 40)))
+			c.lines = append(c.lines, fmt.Sprintf("INFRA shard %d failed without a saved case: %v\n%s\n...\n%s", r.idx, r.err, grepLines(r.out, "panic", 12), tail(r.out, 40)))
 		} else if !strings.Contains(r.out, "PASS") {
 			c.infra++
 			c.lines = append(c.lines, fmt.Sprintf("INFRA shard %d: unexpected output\n%s", r.idx, tail(r.out, 20)))
@@ -667,4 +667,19 @@ func replay(path string) int {
 	}
 	fmt.Println("ok: no violation on replay")
 	return 0
+}
+
+// grepLines returns the first line containing pat and the n lines after it.
+func grepLines(out, pat string, n int) string {
+	lines := strings.Split(out, "\n")
+	for i, l := range lines {
+		if strings.Contains(l, pat) {
+			j := i + n
+			if j > len(lines) {
+				j = len(lines)
+			}
+			return strings.Join(lines[i:j], "\n")
+		}
+	}
+	return ""
 }
